@@ -11,10 +11,7 @@ RULE = (
     "a case is (definition, loop bound, complete set or drawn subset, "
     "schedule seed) as in C01, with 30% of the generated definitions "
     "starting with a fork (several start events) and 20% using names with "
-    "dots, spaces, slashes and tokens that collide with internal markers, "
-    "and a fifth of them with loops required, empty break branches and an "
-    "inner loop directly in front of the break switch (outside fragment F, "
-    "observed to be handled). "
+    "dots, spaces, slashes and tokens that collide with internal markers. "
     "The emitted text goes through a strict stack-discipline validator of "
     "the dialect (exact wrapper, separators only directly inside their own "
     "block, own terminators only, break only last-in-sequence inside a "
@@ -146,8 +143,7 @@ def run_shard(ctx):
         pvcase.cases(),
         pvcase.cases(multi_start=True),
         pvcase.cases(exotic=True),
-        pvcase.cases(loops_required=True),
-        pvcase.cases(loops_required=True, empty_break=True, adjacent=True))
+        pvcase.cases(loops_required=True))
     ctx.run_given(strat, lambda c: run_case(c, ctx), n,
                   shrinker=pvcase.shrinker)
     if ctx.violations:
